@@ -208,6 +208,7 @@ int EGLPNUM_TYPENAME_ILLread_mps (
 	{
 		rval = mps_fill_in (lp, state.obj);
 	}
+	ILL_IFFREE (state.obj);
 
 CLEANUP:
 	ILL_RESULT (rval, "read_mps");
